@@ -185,10 +185,16 @@ def _copy_node(node):
     """Deep copy without the analysis caches hung on the node."""
     saved = node.__dict__.pop("_sa_cfg", None)
     try:
-        return copy.deepcopy(node)
+        try:
+            import pickle
+
+            return pickle.loads(pickle.dumps(node, protocol=pickle.HIGHEST_PROTOCOL))  # several times faster than deepcopy on syntax trees
+        except Exception:
+            return copy.deepcopy(node)
     finally:
         if saved is not None:
             node._sa_cfg = saved
+
 
 
 def _build_block(helper, call, form, target, caller_locals):
@@ -246,7 +252,7 @@ def _build_block(helper, call, form, target, caller_locals):
     block = InlineBlock(body=prologue + new_body)
     ast.copy_location(block, call)
     ast.fix_missing_locations(block)
-    block._sa_helper = helper
+    block._sa_helper = helper.name  # a plain string: the block is copied (pickled) many times
     return block
 
 
